@@ -8,6 +8,7 @@ import (
 	"os"
 	"os/exec"
 	"path/filepath"
+	"regexp"
 	"strings"
 	"sync"
 	"time"
@@ -102,6 +103,17 @@ var c17InvalidTable = []c17Invalid{
 	{"headers", map[string]interface{}{"set": map[string]interface{}{"X-A": 5}}, "headers value not a string"},
 	{"headers", map[string]interface{}{"request_set": []interface{}{"a"}}, "headers request_set not an object"},
 }
+
+// c17Shapes: plugin configs that are not mappings (written into the YAML file as raw text).
+var c17Shapes = []struct{ Name, Raw, Why string }{
+	{"size_limit", "[1048576, 1048576]", "size_limit config written as a sequence"},
+	{"size_limit", "1048576", "size_limit config written as a number"},
+	{"headers", "X-App=Helios", "headers config written as a string"},
+	{"gzip", "[5, 1024]", "gzip config written as a sequence"},
+	{"custom-auth", "secret", "custom-auth config written as a string"},
+}
+
+var c17ShapeRe = regexp.MustCompile(`config:\s*\n\s+verifshape: '?"?([^\n'"]*)'?"?`)
 
 type c17Case struct {
 	Kind  string    `json:"kind"` // order | invalid | binary
@@ -244,6 +256,8 @@ func runBinaryUntil(e *vh.Env, cfg *config.Config, tag string, wait time.Duratio
 	if err != nil {
 		return false, -1, false, "marshal: " + err.Error()
 	}
+	// "verifshape: <raw>" stands for a config node that is written as the raw text (not a mapping)
+	data = c17ShapeRe.ReplaceAll(data, []byte("config: $1"))
 	path := filepath.Join(e.TmpDir, tag+".yaml")
 	if err := os.WriteFile(path, data, 0o644); err != nil {
 		return false, -1, false, err.Error()
@@ -385,6 +399,10 @@ func init() {
 					cs = append(cs, c17Case{Kind: "binary", Chain: ch, Inv: inv, Pos: r.Intn(ln + 1), Idx: k})
 				}
 			}
+			// a plugin's config that is not a mapping at all (sequence, number, string): nothing usable can be read from it
+			for si := range c17Shapes {
+				cs = append(cs, c17Case{Kind: "binary-shape", Inv: si})
+			}
 			// a valid chain must start (non-vacuity of "never accepted a connection")
 			cs = append(cs, c17Case{Kind: "binary-valid", Chain: []c17Plug{{"logging", 0}, {"size_limit", 1}, {"headers", 0}}})
 			return cs
@@ -418,7 +436,14 @@ func init() {
 			}
 			cfg.Plugins = c17ChainWithInvalid(c)
 			inv := c17InvalidTable[c.Inv]
-			exited, code, accepted, out := runBinary(e, cfg, fmt.Sprintf("inv%d_%d", c.Inv, c.Idx), 20*time.Second)
+			tag := fmt.Sprintf("inv%d_%d", c.Inv, c.Idx)
+			if c.Kind == "binary-shape" {
+				sh := c17Shapes[c.Inv]
+				inv = c17Invalid{Name: sh.Name, Why: sh.Why}
+				cfg.Plugins = config.PluginsConfig{Enabled: true, Chain: []config.PluginConfig{{Name: "logging"}, {Name: sh.Name, Config: map[string]interface{}{"verifshape": sh.Raw}}, {Name: "headers", Config: map[string]interface{}{"set": map[string]interface{}{"X-A": "b"}}}}}
+				tag = fmt.Sprintf("shape%d", c.Inv)
+			}
+			exited, code, accepted, out := runBinary(e, cfg, tag, 20*time.Second)
 			switch {
 			case accepted:
 				o.Viol("C17|binary|listening-with-invalid-chain|"+inv.Why, fmt.Sprintf("the binary accepted a connection on the proxy port although the chain has %s (exited=%v code=%d)", inv.Why, exited, code), map[string]any{"output": trunc(out, 500)})
